@@ -1,4 +1,5 @@
 import ESV.Comp.FrontW13
+import ESV.Comp.CodegenF0e
 import ESV.Props.C01Backend
 /-
 C01, front end — what is proved about the compiler's front end (the code generator: `ESV.Comp.frontend`, model of
@@ -85,5 +86,45 @@ def exProg : Program :=
 
 example : FrontGuard exProg := by decide
 example : compiles exProg = true := by decide
+
+/-! ### `codegen_correct` and `compile_correct`, fragment F0 (straight-line routines) -/
+
+/-- **The code generator is correct on F0.**  `F0Prog p` (decidable): no macros, routines numbered 0, 1, 2, … in source
+order, bodies consisting of plain operations (assignments arrive as operations), operations with an inline context,
+with-blocks around a plain operation / `end` / `hold`, and `return` / `end` / `hold`.  For every routine the source
+semantics (`Src.Program.graph` of `toSrc p`, the program as the language semantics reads it) and the labelled code of the
+front end are behaviourally equal. -/
+theorem codegen_correct_F0 (p : Program) (t : Tables) (hp : F0Prog p) (hf : frontend p = .ok t) (j : Nat) (r : Routine)
+    (hj : p.routines[j]? = some r) :
+    ∃ e, (toSrc p).graph.entries[j]? = some (some e) ∧
+      Equivalent (toSrc p).graph.lts (labLTS t.ops) e (labEntry t.ops j) := by
+  obtain ⟨h0, paths⟩ := graph_f0 p hp
+  obtain ⟨e, he, hpath⟩ := paths j r hj
+  obtain ⟨its, hits, hshape⟩ := frontend_f0 p t hp hf j r hj
+  exact ⟨e, he, f0_equiv h0 hits hshape (codeOK_f0 r.body (hp.2.2 r (List.mem_of_getElem? hj))) e hpath⟩
+
+/-- **The compiler is correct on F0**, end to end: for every F0 program that compiles, every routine of the source
+program (language semantics) and of the compiled op lists (SSB machine) behave the same — for every outcome of every test
+the same sequence of operations, the same final event. -/
+theorem compile_correct_F0 (p : Program) (res : Result) (hp : F0Prog p) (h : compile p = .ok res) (j : Nat) (r : Routine)
+    (hj : p.routines[j]? = some r) :
+    ∃ e, (toSrc p).graph.entries[j]? = some (some e) ∧
+      Equivalent (toSrc p).graph.lts (Machine.lts ⟨flatten (conv res.ops)⟩) e (Machine.entry ⟨flatten (conv res.ops)⟩ j) := by
+  obtain ⟨t, hf, _, _, hb⟩ := compile_backend_equiv p res (frontGuard_of_f0 p hp) h
+  obtain ⟨e, he, h1⟩ := codegen_correct_F0 p t hp hf j r hj
+  obtain ⟨its, hits, _⟩ := frontend_f0 p t hp hf j r hj
+  have hlt : j < t.ops.length := by
+    rcases Nat.lt_or_ge j t.ops.length with h' | h'
+    · exact h'
+    · rw [List.getElem?_eq_none h'] at hits; cases hits
+  exact ⟨e, he, h1.trans (hb j hlt)⟩
+
+/-- non-vacuity: `def 0 { a(1); with (lives 2) { b(); } return; c(); }  def 1 { lives<3>.d(); hold; }` -/
+def exF0 : Program :=
+  ⟨[], [], [⟨some 0, "r0", none, .cons (.op "a" [.int 1]) (.cons (.with_ "lives" (.int 2) (.op "b" [])) (.cons .ret (.cons (.op "c" []) .nil)))⟩,
+    ⟨none, "r1", some "co", .cons (.inl "lives" (.int 3) "d" []) (.cons .hold .nil)⟩]⟩
+
+example : F0Prog exF0 := by decide
+example : compiles exF0 = true := by decide
 
 end ESV.C01Frontend
